@@ -1,9 +1,10 @@
 #!/bin/bash
 # tools/seedbatch.sh Cxx [tier]  — run seedtest on every /tmp/seed/out/Cxx/<k> and print one summary line each
 pid=$1; tier=${2:-quick}
-for d in /tmp/seed/out/$pid/*/; do
+root=${SEED_ROOT:-/tmp/seed/out}
+for d in $root/$pid/[0-9]*/; do
   [ -f "$d/patch.diff" ] || continue
-  python3 /verif/tools/seedtest.py "$d" --tier $tier > /tmp/seedtest_$(basename $(dirname $d))_$(basename $d).log 2>&1
+  python3 /verif/tools/seedtest.py "$d" --tier $tier > /tmp/seedtest_$(basename $root)_$(basename $(dirname $d))_$(basename $d).log 2>&1
   python3 - "$d" <<'PY'
 import json,sys
 d=json.load(open(sys.argv[1]+'/confirm.json'))[-1]
